@@ -446,6 +446,50 @@ def h_pause(ctx, npause, hold=9):
     return [cuts, len(P.notifications()), seen]
 
 
+def h_pause_then_new_connection(ctx, hold=3):
+    """What an interrupted read keeps belongs to ITS connection.  Session 1: after the handshake a message arrives in part
+    (solver-chosen cut), then nothing for longer than the hold time: ExaBGP closes (4/0) while bytes of the unfinished message
+    are still set aside.  Session 2 of the same Peer, on a new connection: a clean handshake and an UPDATE must be read as
+    sent."""
+    from kits import session as S
+    from kits import peer as P
+    from checks import c05 as C5
+    conf = S.mk_conf(local_as=C5.LOCAL_AS, peer_as=C5.PEER_AS, hold=hold, families=('ipv4 unicast',), adj_rib_in=True)
+    neighbor = S.neighbor_from(conf)
+    neighbor.api = dict(neighbor.api)
+    neighbor.reset_rib()
+    neighbor.rib.incoming.clear()
+    update = P.msg(2, C5.UPDATE_OK)
+    cut = ctx.choice('cut', len(update) - 1) + 1                # 1 .. len-1 octets of the UPDATE arrive
+    good = P.msg(1, C5.open_body(hold=hold)) + P.KEEPALIVE
+    f1 = P.ByteFeeder([('data', good + update[:cut]), ('pause', hold + 2.5), ('eof',)])
+    peer = P.new_peer(neighbor, f1)
+    r1 = P.drive(peer._run(), max_steps=8000)
+    w = P.WORLD
+    n1 = len(w.written)
+    first = [(c, sc) for _, c, sc in P.notifications()]
+    if cut < 19:
+        ctx.cover('cut-inside-the-header')
+    else:
+        ctx.cover('cut-inside-the-body')
+    seen = []
+    orig = neighbor.rib.incoming.update_cache
+    neighbor.rib.incoming.update_cache = lambda route: (seen.append(str(route.nlri)), orig(route))[1]
+    f2 = P.ByteFeeder([('data', good + update + P.KEEPALIVE), ('pause', 0.35), ('eof',)])
+    peer._conn_args = (f2, 'ok', None)
+    try:
+        r2 = P.drive(peer._run(), max_steps=16000)
+    finally:
+        neighbor.rib.incoming.update_cache = orig
+    second = [(data[19], data[20]) for st, t, data in w.written[n1:] if len(data) >= 21 and data[18] == 3]
+    info = {'cut': cut, 'session-1-notifications': first, 'session-2-notifications': second, 'session-2-received': seen,
+            'fsm': ['%s>%s' % t for t in w.fsm], 'results': [r1[0], r2[0]], 'cancelled-reads': w.cancelled_reads}
+    ctx.check('first-session-closed-by-the-hold-timer', first == [(4, 0)], sig='C06:pause2:harness:first-session-not-closed-by-hold-timer', info=info)
+    ctx.check('second-session-established', [t for t in w.fsm].count(('OPENCONFIRM', 'ESTABLISHED')) == 2, sig='C06:pause2:second-connection-not-established', info=info)
+    ctx.check('second-connection-reads-its-own-bytes', not second and seen == ['10.0.0.0/24'], sig='C06:pause2:bytes-of-a-previous-connection-read-on-the-next', info=info)
+    return [cut, first, second, seen]
+
+
 # ----------------------------------------------------------------------------- the maximum in force on the connection
 
 
@@ -524,6 +568,7 @@ def units(tier):
                        must_cover=('delivered', 'split'), weight=40))
         us.append(Unit('big/gen/n%d' % number, lambda ctx, n=number: h_chunk(ctx, n, 'gen', 3, extra=19, big=True),
                        must_cover=('delivered', 'split'), weight=40))
+    us.append(Unit('pause/then-new-connection', h_pause_then_new_connection, must_cover=('cut-inside-the-header', 'cut-inside-the-body'), weight=40, max_seconds=600))
     us.append(Unit('extended/limit-in-force', h_extended, must_cover=('extended-negotiated', 'extended-not-negotiated', 'peer-open-read-first'), weight=30))
     for n in ((1, 2) if thorough else (1,)):
         us.append(Unit('pause/p%d' % n, lambda ctx, n=n: h_pause(ctx, n),
